@@ -472,7 +472,32 @@ def random_spec(rng, tier='quick'):
             fn['link'] = rng.choice(EXTRA_LINKS) if rng.random() < 0.06 else rng.choice(LINKS)
             fn['form'] = rng.choice(FORMS)
         fns.append(fn)
-    return {'fns': fns, 'x': rng.choice([1, 2, 3, 4]), 'recursive': rng.random() >= 0.1}
+    spec = {'fns': fns, 'x': rng.choice([1, 2, 3, 4]), 'recursive': rng.random() >= 0.1}
+    if rng.random() < 0.3:
+        spec['files'] = random_files(rng, depth)
+    return spec
+
+
+# file names for the user modules: malt's own module base names (in other directories, with other extensions), names that
+# look like generated modules, names with spaces / non-ASCII characters
+FILE_NAMES = ['api.py', 'conversion.py', 'converter.py', 'error_utils.py', 'origin_info.py', 'function_wrappers.py', 'py_builtins.py',
+              'control_flow.py', 'impl/api.py', 'malt/impl/api.py', 'malt/pyct/error_utils.py', 'operators/control_flow.py',
+              'api.pyw', 'api.txt', 'api', 'API.py', 'api.py.bak', 'error_utils.pyx', '__autograph_generated_file_user.py',
+              '__autograph_generated_fileab12cd34.py', 'x__autograph_generated_file.py', 'my module.py', 'dir with space/mod one.py',
+              'm\u00f6dule_\u00fc.py', '\u043c\u043e\u0434\u0443\u043b\u044c.py', 'transformer.py', 'loader.py', 'templates.py',
+              'ag_logging.py', 'variables.py', '__init__.py', 'pkg/__init__.py']
+
+
+def random_files(rng, depth):
+    entry = rng.choice(FILE_NAMES)
+    out = {'entry': entry}
+    if depth >= 2 and rng.random() < 0.6:
+        helper = rng.choice(FILE_NAMES)
+        if helper == entry:
+            helper = 'sub/' + helper          # same base name, another directory
+        out['helper'] = helper
+        out['split'] = rng.randrange(1, depth)
+    return out
 
 
 def build(spec, tag=''):
@@ -573,17 +598,43 @@ def build(spec, tag=''):
             head.append('def %s(x):' % name)
             body = ['y = 0', 'z = 0'] + lines + ['return y']
         defs.append('\n'.join(head + _indent(body)) + '\n')
-    src = PRELUDE.replace('@TAG@', tag or 'untagged') + '\n\n'.join(defs)
+    files = spec.get('files') or {}
+    split = None
+    if files.get('helper') and d >= 2:
+        # the chain is split across two user modules: f_1..f_k stay in the entry module, f_{k+1}..f_d go to the helper -
+        # only where everything from f_{k+1} down runs UNCONVERTED (no conversion, no source map involves the helper file)
+        k = min(max(int(files.get('split', 1)), 1), d - 1)
+        below = ['f%d%s' % (j + 1, T) for j in range(k, d)]
+        ok = all(not fn_conv[n] for n in below) and not fn_conv['*below-leaf*'] and not any(f in below for _, f, _ in wraps) \
+            and not any(fns[j].get('link') in ('nested-call', 'lambda-var', 'decorated', 'self-rec') for j in range(k - 1, d - 1))
+        if ok:
+            split = k
+    pre = PRELUDE.replace('@TAG@', tag or 'untagged')
+    helper_src = None
+    if split is None:
+        src = pre + '\n\n'.join(defs)
+    else:
+        # defs is callee-first: defs[0] = f_d ... defs[d-1] = f_1
+        helper_src = pre + '\n\n'.join(defs[:d - split])
+        src = pre + '\n\n'.join(defs[d - split:])
     if wraps:
         src += '\n\n' + '\n'.join('%s = %s' % (g, f) for g, f, _ in wraps) + '\n'
     if T:
         for m in ('call', 'scall'):
+            if helper_src is not None:
+                helper_src = helper_src.replace('def %s(' % m, 'def %s%s(' % (m, T)).replace('.%s(' % m, '.%s%s(' % (m, T))
             src = src.replace('def %s(' % m, 'def %s%s(' % (m, T)).replace('.%s(' % m, '.%s%s(' % (m, T))
-    return {'src': src, 'recursive': rec_opt, 'wraps': wraps, 'entry': 'f1' + T, 'args': [spec['x']], 'fn_conv': fn_conv}
+    out = {'src': src, 'recursive': rec_opt, 'wraps': wraps, 'entry': 'f1' + T, 'args': [spec['x']], 'fn_conv': fn_conv,
+           'entry_file': files.get('entry')}
+    if helper_src is not None:
+        out.update({'helper_src': helper_src, 'helper_file': files['helper'], 'helper_names': ['f%d%s' % (split + 1, T)]})
+    return out
 
 
 def describe(spec):
     parts = []
     for fn in spec['fns']:
         parts.append('%s/%s/%s' % (fn.get('link', fn.get('kind')), fn['form'], '+'.join(fn['contexts']) or '-'))
-    return ('' if spec.get('recursive', True) else 'nonrecursive: ') + ' -> '.join(parts)
+    fl = spec.get('files')
+    ftxt = '' if not fl else '[files %s%s] ' % (fl['entry'], (' | %s @%s' % (fl['helper'], fl.get('split'))) if fl.get('helper') else '')
+    return ftxt + ('' if spec.get('recursive', True) else 'nonrecursive: ') + ' -> '.join(parts)
